@@ -242,7 +242,40 @@ class Ctx:
         return res
 
     def validate(self, module, trace, props, cfg=None, timeout=1200, label=None, heap=None):
-        """impl -> spec: check a recorded trace against the trace specification."""
+        """impl -> spec: check a recorded trace against the trace specification.  Large traces are
+        split at episode boundaries ("reset" events) into chunks validated by parallel TLC runs."""
+        limit = 120 * 1024 * 1024
+        if os.path.getsize(trace) > limit:
+            chunks = []
+            out = None
+            size = 0
+            with open(trace) as f:
+                for line in f:
+                    if out is None or (size > limit and '"op":"reset"' in line[:60]):
+                        if out:
+                            out.close()
+                        cp = "%s.chunk%d" % (trace, len(chunks))
+                        chunks.append(cp)
+                        out = open(cp, "w")
+                        size = 0
+                    out.write(line)
+                    size += len(line)
+            if out:
+                out.close()
+            self.note("split " + (label or module), chunks=len(chunks))
+            from concurrent.futures import ThreadPoolExecutor
+            with ThreadPoolExecutor(max_workers=4) as ex:
+                futs = [ex.submit(self._validate_one, module, c, props, cfg, timeout, "%s.%d" % (label or module, i)) for i, c in enumerate(chunks)]
+                res = [f.result() for f in futs]
+            for c in chunks:
+                try:
+                    os.remove(c)
+                except OSError:
+                    pass
+            return res[0] if res else None
+        return self._validate_one(module, trace, props, cfg, timeout, label)
+
+    def _validate_one(self, module, trace, props, cfg=None, timeout=1200, label=None):
         self._n += 1
         result = self.path("result-%s-%d.json" % (label or module, self._n))
         env = {"TRACE": trace, "RESULT": result}
